@@ -209,6 +209,7 @@ import JdProofs.NativeEndToEndSet
 import JdProofs.NativeEndToEndKeysB
 import JdProofs.NativeEndToEndKeys
 import JdProps.C01Void
+import JdProps.C02Precision
 
 set_option autoImplicit false
 
